@@ -390,8 +390,9 @@ pub fn check_case<S: Case>(spec: &WorldSpec, pools: &[rayon::ThreadPool], only_b
         let world = world_state(&mut w);
         compare(&states, &world, Some(bits), &mut out);
         // a task started early (during the stage of an earlier reference group) has already run
-        // when its own group starts: C12's "may run simultaneously" is only asked of tasks that
-        // both ran in their own stage
+        // when its own group starts: C12's "may run simultaneously" is asked of two tasks of one
+        // group that both ran in their own stage, or that were both started early (they are then
+        // forked next to each other as well)
         let early: Vec<bool> = (0..n).map(|j| (0..n).any(|i| group_of(i) < group_of(j) && may_overlap(&states[i].path, &states[j].path))).collect();
         // C08: tasks permitted to overlap must not share an address with a write
         for i in 0..n {
@@ -413,7 +414,7 @@ pub fn check_case<S: Case>(spec: &WorldSpec, pools: &[rayon::ThreadPool], only_b
                             bits: Some(bits),
                         });
                     }
-                } else if group_of(i) == group_of(j) && !early[i] && !early[j] {
+                } else if group_of(i) == group_of(j) && early[i] == early[j] {
                     // C12: same reference group => must be placed where they may run simultaneously
                     out.push(Violation {
                         props: &["C12"],
